@@ -290,4 +290,46 @@ theorem join_slash_replaces (dec : EscDec) (p : List Part) (rest : Str)
   rw [lstrip_slash, unicodeEscape_of_no_backslash dec hb']
   rfl
 
+/-! ### `is_relative_to` as an order on token sequences -/
+
+theorem relative_iff_proper_extension (self other : List Part) :
+    isRelativeTo self other = true ↔ ∃ rest, rest ≠ [] ∧ tokens self = tokens other ++ rest := by
+  constructor
+  · intro h
+    simp only [isRelativeTo, Bool.and_eq_true, decide_eq_true_eq, beq_iff_eq] at h
+    obtain ⟨hl, ht⟩ := h
+    refine ⟨(tokens self).drop other.length, ?_, ?_⟩
+    · intro hn
+      have := congrArg List.length hn
+      simp [tokens] at this
+      omega
+    · rw [← ht, List.take_append_drop]
+  · rintro ⟨rest, hne, ht⟩
+    have hlen : self.length = other.length + rest.length := by
+      have := congrArg List.length ht
+      simpa [tokens] using this
+    have hpos : 0 < rest.length := List.length_pos_iff.mpr hne
+    simp only [isRelativeTo, Bool.and_eq_true, decide_eq_true_eq, beq_iff_eq]
+    refine ⟨by omega, ?_⟩
+    rw [ht]
+    have : other.length = (tokens other).length := by simp [tokens]
+    rw [this, List.take_left]
+
+theorem relative_irrefl (p : List Part) : isRelativeTo p p = false := by
+  simp [isRelativeTo]
+
+theorem relative_trans (a b c : List Part) (h1 : isRelativeTo a b = true)
+    (h2 : isRelativeTo b c = true) : isRelativeTo a c = true := by
+  rw [relative_iff_proper_extension] at *
+  obtain ⟨r1, n1, e1⟩ := h1
+  obtain ⟨r2, n2, e2⟩ := h2
+  refine ⟨r2 ++ r1, by simp [n1], ?_⟩
+  rw [e1, e2, List.append_assoc]
+
+theorem relative_asymm (a b : List Part) (h : isRelativeTo a b = true) :
+    isRelativeTo b a = false := by
+  simp only [isRelativeTo, Bool.and_eq_true, decide_eq_true_eq] at h
+  simp only [isRelativeTo, Bool.and_eq_false_iff, decide_eq_false_iff_not]
+  left; omega
+
 end JP.Lemmas
